@@ -276,6 +276,9 @@ class IPCServer(IPCBase):
                 self.sock.settimeout(timeout)
 
     def __enter__(self) -> IPCServer:
+        # A new connection starts a new stream: drop whatever the previous client left behind.
+        self.buffer = bytearray()
+        self.message_size = None
         if sys.platform == "win32":
             # NOTE: It is theoretically possible that this will hang forever if the
             # client never connects, though this can be "solved" by killing the server
